@@ -722,6 +722,11 @@ Exec(d) ==
      IN
      CASE c \in {"null", "RE_class"} ->
             /\ d = "ok" /\ S' = Done(s0, Val(IF c = "null" THEN None ELSE "type:RunEngine")) /\ obs' = hook
+       [] c = "subscribe" ->
+            \* _subscribe (2599-2643): a per-call document consumer is registered (Dispatcher.tla has the token bookkeeping; it is
+            \* dropped again when the call ends), the checkpoint state is reset (an implicit checkpoint: nothing before this message
+            \* is replayed), the plan receives the token
+            /\ d = "ok" /\ S' = Done(ResetCkpt(s0), Val("token")) /\ obs' = hook
        [] c = "open_run" ->
             /\ d = "ok"
             /\ IF open THEN S' = Done(s0, IMS) /\ obs' = hook
